@@ -113,6 +113,7 @@ fn random_dfa(rng: &mut Rng, k: usize, nprods: usize, alpha: usize, prefix_free:
     let mut leaf_of_prod: std::collections::BTreeMap<i32, usize> = Default::default();
     let mut work = vec![(0usize, 0usize)]; // (state, depth)
     let mut has_child = vec![false];
+    let mut depth_of = vec![0usize];
     while let Some((st, depth)) = work.pop() {
         if depth >= k {
             continue;
@@ -140,6 +141,7 @@ fn random_dfa(rng: &mut Rng, k: usize, nprods: usize, alpha: usize, prefix_free:
                 let s = next_state;
                 next_state += 1;
                 has_child.push(false);
+                depth_of.push(depth + 1);
                 if is_leaf && merge {
                     leaf_of_prod.insert(prod, s);
                 }
@@ -149,6 +151,22 @@ fn random_dfa(rng: &mut Rng, k: usize, nprods: usize, alpha: usize, prefix_free:
             has_child[st] = true;
             if !is_leaf {
                 work.push((dst, depth + 1));
+            }
+        }
+    }
+    // Shared INNER states, as minimisation leaves them (combine_equivalent_states keeps the lowest id):
+    // an edge from a higher-numbered state is redirected to an earlier-created inner state of the same
+    // depth, which gives transitions that lead "backwards" in the state numbering (seeded change mut-C01x).
+    if merge && rng.chance(1, 2) {
+        let inner: Vec<usize> = (0..trans.len()).filter(|&i| trans[i].3 == -1 && has_child[trans[i].2]).collect();
+        let mut done = false;
+        for &i in &inner {
+            for &j in &inner {
+                let (v1, (u2, v2)) = (trans[i].2, (trans[j].0, trans[j].2));
+                if !done && v1 < v2 && u2 > v1 && depth_of[v1] == depth_of[v2] {
+                    trans[j].2 = v1;
+                    done = true;
+                }
             }
         }
     }
